@@ -136,7 +136,7 @@ def run(prop, tier, seed, replay=None):
                 if r["ok"]:
                     raise HarnessError("self-check: mutant addUnlockedSnapshot not refuted")
                 mc_runs.append(dict(mutant="addUnlockedSnapshot", refuted_by=r["violated"]))
-        nproc = 3 if quick else 14
+        nproc = (4 if kind == "clone" else 3) if quick else 14      # clone variants go by scenario id mod 4
         per = 1 if quick else 8
         cmds, parts = [], []
         if replay is not None:
@@ -158,12 +158,16 @@ def run(prop, tier, seed, replay=None):
                              "-kind", kind])
         if replay is None and kind == "rebuild":
             # hand-written histories (an interrupted rebuild, another replica rebuilt meanwhile, ...)
-            pd = os.path.join(work, "pd")
-            os.makedirs(pd)
-            out = os.path.join(work, "td.ndjson")
-            parts.append(out)
-            cmds.append([os.path.join(BUILD, "clusterdrv"), "-jiva", os.path.join(BUILD, "jiva"), "-work", pd, "-out", out,
-                         "-worker", str(nproc + 1), "-in", os.path.join(VERIF, "scenarios", "cluster_directed.ndjson")])
+            # (one driver per history: they run side by side)
+            for j, line in enumerate(l for l in open(os.path.join(VERIF, "scenarios", "cluster_directed.ndjson")) if l.strip()):
+                pd = os.path.join(work, "pd%d" % j)
+                os.makedirs(pd)
+                scf = os.path.join(work, "directed%d.ndjson" % j)
+                open(scf, "w").write(line)
+                out = os.path.join(work, "td%d.ndjson" % j)
+                parts.append(out)
+                cmds.append([os.path.join(BUILD, "clusterdrv"), "-jiva", os.path.join(BUILD, "jiva"), "-work", pd, "-out", out,
+                             "-worker", str(nproc + 1 + j), "-in", scf])
         res = run_parallel(cmds, timeout=600 if quick else 7200)
         for (rc, out), c in zip(res, cmds):
             if rc != 0:
